@@ -483,6 +483,16 @@ func genHist(r *rand.Rand, custom bool) hist {
 		h.Count, h.ZC = genBits(r), genBits(r)
 		h.NCounts, h.PCounts = genBitsList(r, 3), genBitsList(r, 3)
 	}
+	// what the protobuf path also accepts: zero count unset or of the other type, count unset
+	switch r.Intn(16) {
+	case 0:
+		h.ZCKind = 0
+	case 1:
+		h.ZCKind = 3 - h.ZCKind
+		h.ZC = genBits(r)
+	case 2:
+		h.CountKind = 0
+	}
 	if custom {
 		h.Schema = -53
 		h.Custom = genBitsList(r, 3)
